@@ -91,9 +91,10 @@ def run_property(prop, module, tier="quick", level="other", extra_cover=None):
     t0 = time.time()
     seed = int(os.environ.get("VERIF_SEED", "0") or 0)
     repo = extract.repo_path()
-    out_json = os.path.join(VERIF, "evidence", "%s.json" % prop)
+    out_root = os.environ.get("VERIF_OUT", VERIF)
+    out_json = os.path.join(out_root, "evidence", "%s.json" % prop)
     os.makedirs(os.path.dirname(out_json), exist_ok=True)
-    os.makedirs(os.path.join(VERIF, "reports"), exist_ok=True)
+    os.makedirs(os.path.join(out_root, "reports"), exist_ok=True)
     try:
         os.remove(out_json)
     except OSError:
@@ -118,7 +119,7 @@ def run_property(prop, module, tier="quick", level="other", extra_cover=None):
     violations = []
     known_hits = []
     for f in ctx.findings:
-        path = os.path.join(VERIF, "reports", re.sub(r"[^A-Za-z0-9_.\-]", "_", f.key)[:180] + ".json")
+        path = os.path.join(out_root, "reports", re.sub(r"[^A-Za-z0-9_.\-]", "_", f.key)[:180] + ".json")
         with open(path, "w") as fh:
             json.dump(f.to_json(), fh, indent=1)
         if f.key in known:
@@ -127,7 +128,7 @@ def run_property(prop, module, tier="quick", level="other", extra_cover=None):
         else:
             violations.append((f, path))
     for f, path in violations:
-        print("VIOLATION property=%s replay=%s" % (prop, os.path.relpath(path, VERIF)))
+        print("VIOLATION property=%s replay=%s" % (prop, os.path.relpath(path, out_root)))
         print("  rule %s @ %s: %s" % (f.rule, f.where, f.what))
     obligations = sum(r["obligations"] for r in ctx.rules.values())
     discharged = sum(r["discharged"] for r in ctx.rules.values())
